@@ -332,9 +332,13 @@ func (ec *evalCtx) evalBinary(x *ast.BinaryExpr) Value {
 		if x.Op == token.LOR {
 			g = Not(a)
 		}
+		ng := len(ec.st.guards)
 		ec.st.guards = append(ec.st.guards, g)
-		b := scalar(ec.eval(x.Y))
-		ec.st.guards = ec.st.guards[:len(ec.st.guards)-1]
+		var b *Term
+		func() {
+			defer func() { ec.st.guards = ec.st.guards[:ng] }() // also when the evaluation of the right operand gives up
+			b = scalar(ec.eval(x.Y))
+		}()
 		if x.Op == token.LAND {
 			return And(a, b)
 		}
